@@ -650,7 +650,8 @@ fn fmt_specs_differ(a: &LeanString, sa: &str) -> Option<&'static str> {
                                "{:*^19.5}", "{:-<8.2}", "{:#>30.29}", "{:?}", "{:#?}", "{:12?}", "{:<40?}", "{:.2?}") {
         return Some(x);
     }
-    let (w, p) = (sa.chars().count() + 2, sa.chars().count().saturating_sub(1));
+    // (format widths and precisions are limited to u16 by the formatting machinery)
+    let (w, p) = ((sa.chars().count() + 2).min(65_535), sa.chars().count().saturating_sub(1).min(65_535));
     if format!("{:w$.p$}", a, w = w, p = p) != format!("{:w$.p$}", sa, w = w, p = p) {
         return Some("{:w$.p$} (w = chars + 2, p = chars - 1)");
     }
